@@ -337,17 +337,58 @@ def d5_projections(ctx, mod):
     ctx.check(rule, 'correlators.py:Corr.prune#vectors', ok, 'lowest Ntrunc states of the base matrix at (t0proj, tproj)', 'evecs = %s' % [unparse(s.value) for s in ev])
     st = [s for s in statements(f) if isinstance(s, ast.Assign) and isinstance(s.targets[0], ast.Subscript) and unparse(s.targets[0].value).startswith('tmpmat')]
     key = 'correlators.py:Corr.prune#projection'
-    if len(st) != 1:
+    if not st:
         ctx.unrec(rule, key, 'projection store not found')
     else:
-        mx = MatX(mod, None, inline=False)
-        g = mx.t(st[0].value)
-        tg = unparse(st[0].targets[0])
         import re
-        m = re.fullmatch(r'tmpmat\[(\w+)\]\[(\w+)\]|tmpmat\[(\w+), (\w+)\]', tg)
-        idx = [x for x in m.groups() if x] if m else None
-        ok = bool(idx) and g[0] == 'matmul' and len(g) == 4 and g[1] == ('T', ('idx', S('evecs'), idx[0])) and g[3] == ('idx', S('evecs'), idx[1]) and g[2] in (('idx', S('self'), 't'), ('idx', ('attr', S('self'), 'content'), 't'))
-        ctx.check(rule, key, ok, "G'(t)[i, j] = v_i^T G(t) v_j", 'projection %s = %s' % (tg, show(g)), mod.loc(st[0]))
+        covered = set()
+        n_direct = 0
+        for k_, one in enumerate(st):
+            tg = unparse(one.targets[0])
+            m = re.fullmatch(r'tmpmat\[(\w+)\]\[(\w+)\]|tmpmat\[(\w+), (\w+)\]', tg)
+            idx = [x for x in m.groups() if x] if m else None
+            if not idx:
+                ctx.unrec(rule, key + '#%d' % k_, 'store target %s' % tg, mod.loc(one))
+                continue
+            if isinstance(one.value, ast.Subscript) and unparse(one.value).startswith('tmpmat'):
+                # element copied from another element: only the identity copy is valid, the target matrix G(t) is not symmetric in general
+                ctx.check(rule, key + '#copy[%s]' % tg, unparse(one.value) == tg, 'no-op copy',
+                          "%s is copied from %s: (v_i, G v_j) = (v_j, G v_i) holds only for a symmetric G(t), prune() does not symmetrise its target" % (tg, unparse(one.value)), mod.loc(one))
+                continue
+            mx = MatX(mod, None, inline=False)
+            g = mx.t(one.value)
+            ok = g[0] == 'matmul' and len(g) == 4 and g[1] == ('T', ('idx', S('evecs'), idx[0])) and g[3] == ('idx', S('evecs'), idx[1]) and g[2] in (('idx', S('self'), 't'), ('idx', ('attr', S('self'), 'content'), 't'))
+            ctx.check(rule, key + ('' if k_ == 0 else '#%d' % k_), ok, "G'(t)[i, j] = v_i^T G(t) v_j", 'projection %s = %s' % (tg, show(g)), mod.loc(one))
+            if not ok:
+                continue
+            n_direct += 1
+            # index pairs reached by the enclosing loops, simulated for Ntrunc = 3
+            loops = []
+            p_ = mod.parents.get(one)
+            while p_ is not None and p_ is not f:
+                if isinstance(p_, ast.For) and isinstance(p_.target, ast.Name) and p_.target.id in idx:
+                    loops.append(p_)
+                p_ = mod.parents.get(p_)
+            loops = loops[::-1]
+
+            def sim(k, env):
+                if k == len(loops):
+                    if all(x in env for x in idx):
+                        covered.add((env[idx[0]], env[idx[1]]))
+                    return
+                lp = loops[k]
+                try:
+                    rng = eval(compile(ast.Expression(body=lp.iter), '<range>', 'eval'), {'__builtins__': {'range': range, 'len': len}}, dict(env))
+                except Exception as ex:
+                    raise Unrecognised('loop range %s: %s' % (unparse(lp.iter), ex))
+                for v_ in rng:
+                    e2 = dict(env)
+                    e2[lp.target.id] = v_
+                    sim(k + 1, e2)
+            sim(0, {'Ntrunc': 3})
+        if n_direct:
+            missing = sorted({(i_, j_) for i_ in range(3) for j_ in range(3)} - covered)
+            ctx.check(rule, key + '#coverage', not missing, 'every element (i, j) of the projected matrix is computed from its own pair of vectors', 'for Ntrunc=3 the elements %s are not computed as v_i^T G v_j' % missing, mod.loc(st[0]))
     g = [unparse(guards_of(mod, s, stop=f)[-1][0]) for s in statements(f) if isinstance(s, ast.Raise) and guards_of(mod, s, stop=f)]
     ctx.check(rule, 'correlators.py:Corr.prune#validation', any('Ntrunc >= basematrix.N' in x for x in g) and any('basematrix.N != self.N' in x for x in g), 'rank and size checks', 'guards %s' % g)
 
@@ -420,6 +461,9 @@ def run(ctx):
 
 
 SELFTEST = [
+    ('prune-mirror-copy', 'pyerrors/correlators.py', "                for j in range(Ntrunc):\n                    tmpmat[i][j] = evecs[i].T @ self[t] @ evecs[j]\n", "                for j in range(i + 1):\n                    tmpmat[i][j] = evecs[i].T @ self[t] @ evecs[j]\n                    tmpmat[j][i] = tmpmat[i][j]\n", 'C16-D5'),
+    ('prune-triangle-only', 'pyerrors/correlators.py', "                for j in range(Ntrunc):\n                    tmpmat[i][j] = evecs[i].T @ self[t] @ evecs[j]\n", "                for j in range(i + 1):\n                    tmpmat[i][j] = evecs[i].T @ self[t] @ evecs[j]\n", 'C16-D5'),
+    ('benign-prune-two-direct-stores', 'pyerrors/correlators.py', "                for j in range(Ntrunc):\n                    tmpmat[i][j] = evecs[i].T @ self[t] @ evecs[j]\n", "                for j in range(i + 1):\n                    tmpmat[i][j] = evecs[i].T @ self[t] @ evecs[j]\n                    tmpmat[j][i] = evecs[j].T @ self[t] @ evecs[i]\n", 'BENIGN'),
     ('fix-reverted-prune', 'pyerrors/correlators.py', "            if self.content[t] is None:\n                rmat.append(None)\n                continue\n            for i in range(Ntrunc):", "            for i in range(Ntrunc):", 'C16-D0'),
     ('eigh-no-reversal', 'pyerrors/correlators.py', "return scipy.linalg.eigh(Gt, G0, lower=True)[1].T[::-1]", "return scipy.linalg.eigh(Gt, G0, lower=True)[1].T", 'C16-D1'),
     ('eigh-component-reversal', 'pyerrors/correlators.py', "return scipy.linalg.eigh(Gt, G0, lower=True)[1].T[::-1]", "return scipy.linalg.eigh(Gt, G0, lower=True)[1][::-1].T", 'C16-D1'),
